@@ -3565,6 +3565,19 @@ impl KotoVm {
         let representation = format_options.and_then(|options| options.representation);
         let rendered = match value {
             KValue::Number(n) => match (precision, representation) {
+                // Floats keep their fractional part in the representations that support it
+                (_, Some(StringFormatRepresentation::Debug)) if n.is_f64() => match precision {
+                    Some(precision) => format!("{:.*}", precision as usize, f64::from(n)),
+                    None => n.to_string(),
+                },
+                (_, Some(StringFormatRepresentation::ExpLower)) if n.is_f64() => match precision {
+                    Some(precision) => format!("{:.*e}", precision as usize, f64::from(n)),
+                    None => format!("{:e}", f64::from(n)),
+                },
+                (_, Some(StringFormatRepresentation::ExpUpper)) if n.is_f64() => match precision {
+                    Some(precision) => format!("{:.*E}", precision as usize, f64::from(n)),
+                    None => format!("{:E}", f64::from(n)),
+                },
                 (_, Some(representation)) => {
                     let n = i64::from(n);
                     match representation {
